@@ -373,6 +373,7 @@ class SymEval:
         self.hook = hook
         self.free = set()
         self.strict = strict
+        self.ifexp = None
 
     def ev(self, e):
         if isinstance(e, ast.Constant):
@@ -394,6 +395,11 @@ class SymEval:
                 return sym('pi')
             self.free.add(t)
             return sym(t)
+        if isinstance(e, ast.IfExp) and self.ifexp is not None:
+            r = self.ifexp(e)
+            if isinstance(r, Alg):
+                return r
+            raise AnalysisError('undecided conditional expression `%s`' % U(e)[:60])
         if isinstance(e, ast.UnaryOp):
             v = self.ev(e.operand)
             if isinstance(e.op, ast.USub):
